@@ -195,6 +195,32 @@ def run(chk):
     chk.stream("programs executed 6 times on each of 16 threads (odd rounds on clones) vs. one execution",
                len(ccases), len(ccases), exhaustive=False)
     chk.sample(dict(case=ccases[0][:200], impl=cres[0]))
+    # ---- the compiled program does not depend on what the thread compiled or executed before --------------------
+    # (thread-local state of the compiler - guards, counters, caches - must start afresh for every program)
+    dirty = ["size(x) > 0", "x.contains('a')", "[x].map(v, v + 1)", "now()", "[1].map(v, now())", "f'{x}{1 + 2}'", "nosuch(1)",
+             "x.f(1)", "1 +", "match x { case int: 1 }", "x" + " + 1" * 600, "(" * 40 + "1" + ")" * 40, "[timestamp()].size()",
+             "has(x.y)", "coalesce(x, 1)", "{'a': x}.a", "int('z')", "1 / 0", "-" * 300 + "1"]
+    probes = ["max(1, 2) + y", "size([1, 2]) + 1", "[1, 2].map(v, v * 2)", "int('7') + y", "{'a': 1}.a", "1 + 2 * 3", "true ? 1 : y",
+              "'ab'.contains('a') || y", "min(3, 2) == 2 ? 'p' : 'q'", "f'{1 + 2}'", "timestamp(0) == timestamp(0)", "[3, 1].sort()[0] + y",
+              "1" + " + 1" * 500, "y" + " + 1" * 500, "match 1 { case int: 2 }", "dyn([1, 2]).size()"]
+    fresh = [run_impl(["compile " + vs(p_)], isolate=True)[0] for p_ in probes]
+    seqs = []
+    for _ in range(6 if chk.tier == "quick" else 40):
+        d_ = [rng.choice(dirty) for _ in range(rng.randrange(1, 6))]
+        seqs.append(d_)
+    seqs += [[d_] for d_ in dirty]
+    nseq = 0
+    for d_ in seqs:
+        batch = ["compile " + vs(x_) for x_ in d_] + ["compile " + vs(p_) for p_ in probes]
+        assert len(batch) < 200
+        out = run_impl(batch, isolate=True)[len(d_):]
+        nseq += len(batch)
+        for p_, a_, b_ in zip(probes, fresh, out):
+            if a_ != b_ and not is_dead(b_):
+                chk.violation("the program a source compiles to depends on what was compiled before on the same thread",
+                              dict(source=p_, compiled_before=d_, fresh=a_, after=b_, case="compile " + vs(p_)))
+    chk.stream("16 probe sources compiled after random sequences of 19 sources that leave compiler state behind (unbound names, clock "
+               "reads, syntax errors, long chains, deep nesting) vs. compiled by a fresh process", nseq + len(probes), len(seqs), exhaustive=False)
     chk.cov["rule"] = ("histories: every sequence up to length 3 (quick) / 4 (thorough, sampled at length 4) over the 16-operation "
                        "alphabet, then random ones; probes cover every (context, bindings, program) triple; the expected "
                        "stores are tracked by the generator, the fresh-context comparison runs on the implementation only")
